@@ -106,11 +106,36 @@ def one_dataset(obs, rng, conv, kw, spec):
                     if not isinstance(back, Failed):
                         obs.expect(int(back) == n, 'ravel_index(wind_index(n)) == n with explicit coordinate names')
             r = obs.raises('wind_index(out of range, explicit names)', explicit.wind_index, face.size, mech='out-of-range-linear-accepted')
+    shapes = obs.call('grid_shape', lambda: dict(ems.grid_shape))
+    gdims = obs.call('grid_dimensions', lambda: dict(ems.grid_dimensions))
     for kname, kind in model.kinds.items():
         token = model.kind_token(kname)
         size = kind.size
         obs.expect(sizes.get(token) == size, 'grid_size == product of shape',
                    lambda: {'kind': kname, 'got': sizes.get(token), 'want': size})
+        if not isinstance(shapes, Failed):
+            obs.expect(tuple(shapes.get(token, ())) == tuple(kind.shape), 'grid_shape is the shape of the grid in the convention\'s dimension order',
+                       lambda: {'kind': kname, 'got': shapes.get(token), 'want': kind.shape}, mech='grid-shape')
+        if not isinstance(gdims, Failed):
+            obs.expect(tuple(gdims.get(token, ())) == tuple(kind.dims), 'grid_dimensions are the dimensions of the grid in the convention\'s order',
+                       lambda: {'kind': kname, 'got': gdims.get(token), 'want': kind.dims}, mech='grid-dimensions')
+        # a variable on this grid is recognised as such, and the (deprecated) combined form reports the same size
+        for vname, var in model.variables.items():
+            if var.kind != kname:
+                continue
+            got_kind = obs.call('get_grid_kind', ems.get_grid_kind, ds[vname])
+            if not isinstance(got_kind, Failed):
+                obs.expect(got_kind == token, 'get_grid_kind(variable) is the grid the variable is defined on',
+                           lambda: {'variable': vname, 'dims': ds[vname].dims, 'got': repr(got_kind), 'want': kname}, mech='grid-kind-of-variable')
+            import warnings as _w
+            with _w.catch_warnings():
+                _w.simplefilter('ignore')
+                both = obs.call('get_grid_kind_and_size (deprecated)', ems.get_grid_kind_and_size, ds[vname])
+            if not isinstance(both, Failed):
+                obs.cls('alias:get_grid_kind_and_size')
+                obs.expect(tuple(both) == (token, size), 'get_grid_kind_and_size(variable) == (grid kind, grid size)',
+                           lambda: {'variable': vname, 'got': repr(both), 'want': (kname, size)}, mech='alias-differs')
+            break
         if len(kind.shape) == 2:
             a, b = kind.shape
             if a == 1 and b > 1:
